@@ -29,6 +29,8 @@ type FaultReader struct {
 	// Block, if set, makes every Read wait until the channel is closed (a terminal, a socket or a
 	// pipe whose producer says nothing); afterwards the reader behaves as configured
 	Block   chan struct{}
+	// BlockFrom: with Block set, only Reads at or beyond this offset wait (0 = every Read)
+	BlockFrom int
 	// ErrWithData: the failing Read hands out the last bytes before offset K TOGETHER with the
 	// error (n > 0 and err != nil in one call), as the io.Reader contract allows
 	ErrWithData bool
@@ -40,7 +42,12 @@ type FaultReader struct {
 
 func (f *FaultReader) Read(p []byte) (int, error) {
 	if f.Block != nil {
-		<-f.Block
+		f.mu.Lock()
+		wait := f.pos >= f.BlockFrom
+		f.mu.Unlock()
+		if wait {
+			<-f.Block
+		}
 	}
 	f.mu.Lock()
 	defer f.mu.Unlock()
@@ -106,6 +113,7 @@ type RecWriter struct {
 	FailAt     int
 	Short      bool
 	Transient  bool // only the write with index FailAt fails; later writes succeed again
+	FullCount  bool // the failing write reports ALL bytes as taken together with the error (n == len(p), err != nil), as some forwarding writers do
 	Yield      bool
 	Delay      time.Duration
 	DelayPerKB time.Duration // additional time per 1024 bytes of a write: a consumer with a bandwidth
@@ -170,6 +178,9 @@ func (w *RecWriter) Write(p []byte) (int, error) {
 			n := len(p) / 2
 			w.Buf = append(w.Buf, p[:n]...)
 			return n, e
+		}
+		if w.FullCount {
+			return len(p), e
 		}
 		return 0, e
 	}
